@@ -8,6 +8,8 @@ import Pyunicorn.Generated.ArithC10
 import Pyunicorn.Lemmas.Coupling4
 import Pyunicorn.Lemmas.CouplingOccupancy
 import Pyunicorn.Lemmas.CouplingGJ
+import Pyunicorn.Lemmas.CouplingGJ2
+import Pyunicorn.Lemmas.CouplingOccupancy2
 import Pyunicorn.Generated.StructC10
 /-!
 # C10 — Similarity and coupling estimates equal reference statistics
@@ -1267,5 +1269,320 @@ theorem lag_store_wraps (lag : Nat) (h1 : 128 ≤ lag) (h2 : lag ≤ 255) (z : I
 
 example : wrapBits 8 150 = -106 := by decide
 example : wrapBits 16 150 = 150 := by decide
+
+/-! ## Round 5: the elimination fails for singular matrices only (completeness of `gjInverse`) -/
+
+/-- **completeness of the pivot search**: for every matrix `C` and every `N`, `gjInverse C N`
+returns `none` **iff** `C` has a non-zero kernel vector on the indices `< N`.  (Row operations
+are reversible, so the left half of the augmented matrix keeps the kernel of `C`; when no pivot
+is found in column `c`, that column is a combination of the unit columns before it.)  Together
+with `gjInverse_correct`: the model of `numpy.linalg.inv` returns a matrix exactly for the
+regular matrices, and then the inverse. -/
+theorem gjInverse_complete (C : Nat → Nat → Rat) (N : Nat) :
+    gjInverse C N = none ↔
+      ∃ v : Nat → Rat, (∃ l, l < N ∧ v l ≠ 0) ∧ ∀ k, k < N → sumTo N (fun l => C k l * v l) = 0 :=
+  gjInverse_none_iff C N
+
+/-- the same as an existence statement: the elimination succeeds iff `C` has a left inverse at
+all -/
+theorem gjInverse_succeeds_iff (C : Nat → Nat → Rat) (N : Nat) :
+    (gjInverse C N).isSome ↔
+      ∃ P : Nat → Nat → Rat, ∀ i j, i < N → j < N →
+        sumTo N (fun l => P i l * C l j) = if i = j then 1 else 0 := by
+  constructor
+  · intro h
+    obtain ⟨P, hP⟩ := Option.isSome_iff_exists.mp h
+    exact ⟨P, fun i j hi hj => gjInverse_correct C N P hP i j hi hj⟩
+  · intro ⟨P, hP⟩
+    cases h : gjInverse C N with
+    | some _ => rfl
+    | none =>
+      obtain ⟨v, ⟨l, hl, hne⟩, hk⟩ := (gjInverse_complete C N).mp h
+      exact absurd (left_inverse_kernel C P N hP v hk l hl) hne
+
+/-- **the witness the driver prints** (`gjKernel`, executable): if it returns `(c, w)` then the
+elimination got through the columns `< c` and found no pivot in column `c`; `w` has `N` entries,
+`w_c = -1`, `w_l = 0` beyond `c`, and `C · w = 0` — the harness checks exactly this on the
+covariance matrix the implementation is run on -/
+theorem gjKernel_witness (C : Nat → Nat → Rat) (N c : Nat) (w : List Rat)
+    (h : gjKernel C N = some (c, w)) :
+    c < N ∧ w.length = N ∧ w.getD c 0 = -1 ∧ (∀ l, c < l → l < N → w.getD l 0 = 0) ∧
+      (∃ M, gjLoop N c (gjAug C N) = some M ∧ gjStep M c = none) ∧
+      ∀ k, k < N → sumTo N (fun l => C k l * w.getD l 0) = 0 :=
+  gjKernel_spec C N c w h
+
+/-- **the failing column is the first dependent one**: the columns before `c` are linearly
+independent — a kernel vector of `C` that vanishes from column `c` on is zero.  With
+`gjKernel_witness` (`w_c = -1`, `w_l = 0` beyond `c`): `c` is the least column that is a
+combination of its predecessors, which the harness recomputes with an independent rank routine -/
+theorem gjKernel_first_dependent (C : Nat → Nat → Rat) (N c : Nat) (w : List Rat)
+    (h : gjKernel C N = some (c, w)) (v : Nat → Rat) (hsup : ∀ l, c ≤ l → v l = 0)
+    (hk : ∀ k, k < N → sumTo N (fun l => C k l * v l) = 0) : ∀ l, v l = 0 :=
+  gjKernel_first C N c w h v hsup hk
+
+/-- exactly one of the two happens: a kernel vector or an inverse -/
+theorem gjKernel_dichotomy (C : Nat → Nat → Rat) (N : Nat) :
+    gjKernel C N = none ↔ (gjInverse C N).isSome :=
+  gjKernel_none_iff C N
+
+example : gjKernel (fun a b => ([[1, 2, 3], [2, 4, 6], [1, 0, 1]].getD a []).getD b (0 : Rat)) 3 =
+    some (2, [1, 1, -1]) := by decide +kernel
+example : gjKernel (fun a b => ([[2, 1], [1, 2]].getD a []).getD b (0 : Rat)) 2 = none := by
+  decide +kernel
+/-- a zero on the diagonal is not a failure (row swap) -/
+example : gjKernel (fun a b => ([[0, 1], [1, 0]].getD a []).getD b (0 : Rat)) 2 = none := by
+  decide +kernel
+
+/-- **when the partial-correlation model has no value**: on the covariance matrix of the series
+`r_a` (`n` samples) the elimination fails **iff** the series are exactly collinear — some
+non-trivial combination `Σ_a v_a (r_a(t) - mean_a)` vanishes at every sample.  This is the case
+for which `_calculate_correlation` has its `det(C) == 0` / `pinv` branch; for every other data set
+the model returns the partial correlations (`model_partial_correlation_total`). -/
+theorem partial_correlation_fails_iff_collinear (n N : Nat) (r : Nat → Nat → Rat) :
+    gjInverse (fun a b => covTo n (r a) (r b)) N = none ↔
+      ∃ v : Nat → Rat, (∃ l, l < N ∧ v l ≠ 0) ∧ ∀ t, t < n → combCentred r n N v t = 0 := by
+  rw [gjInverse_complete]
+  constructor
+  · intro ⟨v, hne, hk⟩
+    exact ⟨v, hne, gram_kernel_collinear r n N v hk⟩
+  · intro ⟨v, hne, hc⟩
+    exact ⟨v, hne, collinear_gram_kernel r n N v hc⟩
+
+example : combCentred (fun a t => ([[1, 2, 4], [2, 4, 8]].getD a []).getD t 0) 3 2
+    (fun l => [2, -1].getD l 0) 1 = 0 := by decide +kernel
+
+/-- **total form of `model_partial_correlation`**: for every data set whose series are not
+exactly collinear the executable model `normInvSq ∘ gjInverse` *has* a value, and every
+off-diagonal entry is the partial correlation of the two series given all others, in `[-1, 1]` -/
+theorem model_partial_correlation_total (n N : Nat) (r : Nat → Nat → Rat)
+    (hreg : ∀ v : Nat → Rat, (∀ t, t < n → combCentred r n N v t = 0) → ∀ l, l < N → v l = 0) :
+    ∃ P, gjInverse (fun a b => covTo n (r a) (r b)) N = some P ∧
+      ∀ i j, i < N → j < N → i ≠ j →
+        normInvSq P i j = parCorrSqG (fun a b => covTo n (r a) (r b)) (othersOf N i j) i j ∧
+          -1 ≤ normInvSq P i j ∧ normInvSq P i j ≤ 1 := by
+  cases h : gjInverse (fun a b => covTo n (r a) (r b)) N with
+  | none =>
+    obtain ⟨v, ⟨l, hl, hne⟩, hc⟩ := (partial_correlation_fails_iff_collinear n N r).mp h
+    exact absurd (hreg v hc l hl) hne
+  | some P =>
+    exact ⟨P, rfl, fun i j hi hj hij => model_partial_correlation n N r P h i j hi hj hij⟩
+
+/-! ## Round 5: occupancy of the quantile bins for every row length -/
+
+/-- **occupancy, any `T`** (closes "equal occupancy for `bins ∤ T`: no closed form stated"): for a
+tie-free row of `T ≥ 1` samples and `step = ceil(T / bins)` (the `bin_edge` of the source),
+`_quantile_bin_array` gives the symbol `a ≥ 0` to exactly `min step (T - step·a)` samples
+(truncated subtraction): `step` samples in every full bin, the remaining `T - step·a` in the last,
+short bin, none beyond; no sample gets a negative symbol.  `qbin_equal_occupancy` is the case
+`bins | T`. -/
+theorem qbin_occupancy_any_length (row : List Rat) (bins : Nat) (hnd : row.Nodup)
+    (hT : 1 ≤ row.length) (hb : 1 ≤ bins) (a : Int) :
+    qbinOccupancy row bins a =
+      if 0 ≤ a then min (binEdge row.length bins) (row.length - binEdge row.length bins * a.toNat)
+      else 0 :=
+  qbinOccupancy_general row bins hnd hT hb a
+
+/-- which symbols occur at all: exactly `0 … ceil(T / step) - 1` -/
+theorem qbin_symbol_used_iff (row : List Rat) (bins : Nat) (hnd : row.Nodup)
+    (hT : 1 ≤ row.length) (hb : 1 ≤ bins) (a : Int) :
+    0 < qbinOccupancy row bins a ↔ 0 ≤ a ∧ binEdge row.length bins * a.toNat < row.length := by
+  rw [qbin_occupancy_any_length row bins hnd hT hb a]
+  have hstep : 1 ≤ binEdge row.length bins := by
+    unfold binEdge
+    exact (Nat.one_le_div_iff (by omega)).mpr (by omega)
+  by_cases ha : 0 ≤ a
+  · rw [if_pos ha]
+    constructor
+    · intro h; exact ⟨ha, by omega⟩
+    · intro ⟨_, h⟩; omega
+  · rw [if_neg ha]
+    constructor
+    · intro h; omega
+    · intro ⟨h, _⟩; exact absurd h ha
+
+/-- `T = 7`, `bins = 3`: `step = 3`, occupancies `3, 3, 1` -/
+example : (List.range 5).map (fun a => qbinOccupancy [5, 1, 4, 2, 3, 7, 6] 3 (Int.ofNat a - 1)) =
+    [0, 3, 3, 1, 0] := by decide +kernel
+/-- `T = 5`, `bins = 4`: `step = 2`, only three symbols are used: `2, 2, 1` -/
+example : (List.range 5).map (fun a => qbinOccupancy [5, 1, 4, 2, 3] 4 (Int.ofNat a)) =
+    [2, 2, 1, 0, 0] := by decide +kernel
+
+/-- the hypothesis of `model_partial_correlation_total` is satisfiable: these two series are not
+collinear (the elimination succeeds on their covariance matrix) -/
+example : ∀ v : Nat → Rat,
+    (∀ t, t < 3 → combCentred (fun a t => ([[1, 2, 4], [1, 0, 1]].getD a []).getD t 0) 3 2 v t = 0) →
+      ∀ l, l < 2 → v l = 0 := by
+  intro v hv l hl
+  by_contra hne
+  have hnone := (partial_correlation_fails_iff_collinear 3 2 _).mpr ⟨v, ⟨l, hl, hne⟩, hv⟩
+  have hk : gjKernel (fun a b => covTo 3
+      ((fun a t => ([[1, 2, 4], [1, 0, 1]].getD a []).getD t (0 : Rat)) a)
+      ((fun a t => ([[1, 2, 4], [1, 0, 1]].getD a []).getD t (0 : Rat)) b)) 2 = none := by
+    decide +kernel
+  have := (gjKernel_dichotomy _ 2).mp hk
+  rw [hnone] at this
+  cases this
+
+/-! ## Round 5: the result of the elimination is a two-sided inverse -/
+
+/-- **two-sided** (closes "`gjInverse_correct` is the left inverse only"): for every matrix `C`,
+symmetric or not, whatever `gjInverse` returns satisfies `C · P = I` as well as `P · C = I` on the
+indices `< N` — the hypothesis `C · P = I` of `normInv_is_partial_correlation` /
+`schur_complement_inverse` is met by the model's own output without the symmetry detour -/
+theorem gjInverse_two_sided (C : Nat → Nat → Rat) (N : Nat) (P : Nat → Nat → Rat)
+    (h : gjInverse C N = some P) (i j : Nat) (hi : i < N) (hj : j < N) :
+    sumTo N (fun l => P i l * C l j) = (if i = j then 1 else 0) ∧
+      sumTo N (fun l => C i l * P l j) = (if i = j then 1 else 0) :=
+  ⟨gjInverse_correct C N P h i j hi hj,
+   left_inverse_is_right C P N (fun a b ha hb => gjInverse_correct C N P h a b ha hb) i j hi hj⟩
+
+/-- the inverse is unique: any left inverse of `C` on the indices `< N` is what the elimination
+returns (entry by entry) -/
+theorem gjInverse_unique (C : Nat → Nat → Rat) (N : Nat) (P Q : Nat → Nat → Rat)
+    (h : gjInverse C N = some P)
+    (hQ : ∀ i j, i < N → j < N → sumTo N (fun l => Q i l * C l j) = if i = j then 1 else 0)
+    (i j : Nat) (hi : i < N) (hj : j < N) : Q i j = P i j := by
+  -- (Q - P) · C = 0 and C · P = I: the kernel lemma for the transposed system
+  have key := left_inverse_kernel (fun a b => C b a) (fun a b => P b a) N
+    (fun a b ha hb => by
+      have := (gjInverse_two_sided C N P h b a hb ha).2
+      rw [sumTo_congr (g := fun l => C b l * P l a) (fun l _ => by ring), this]
+      by_cases e : a = b
+      · rw [if_pos e, if_pos e.symm]
+      · rw [if_neg e, if_neg (fun x => e x.symm)])
+    (fun l => Q i l - P i l)
+    (fun m hm => by
+      rw [sumTo_congr (g := fun l => (Q i l - P i l) * C l m) (fun l _ => by ring)]
+      have e : (fun l => (Q i l - P i l) * C l m) = fun l => (Q i l - 1 * P i l) * C l m := by
+        funext l; ring
+      rw [e, sumTo_lin, hQ i m hi hm, gjInverse_correct C N P h i m hi hm]; ring)
+  have := key j hj
+  exact sub_eq_zero.mp this
+
+/-! ## Round 5: the expression `_calculate_correlation` returns (`translate/gen_C10.py` reads it) -/
+
+open Pyunicorn.Generated.StructC10 in
+/-- **the model's normalisation is the source's**: `pcorrNumer` / `pcorrDenomSq` are generated on
+every run by evaluating `return - C_inv / norm`, `norm = np.sqrt(abs(np.outer(diag, diag)))`,
+`diag = C_inv.diagonal()[:]` of the working tree entry by entry; `normInvSq` is the signed square
+of that quotient.  Another sign, another mean of the diagonal entries, a dropped `abs` or another
+matrix in the numerator changes the generated definitions and breaks this proof. -/
+theorem normInv_is_source_expression (P : Nat → Nat → Rat) (i j : Nat) :
+    normInvSq P i j =
+      if pcorrDenomSq P i j = 0 then 0
+      else sgn (pcorrNumer P i j) * (pcorrNumer P i j * pcorrNumer P i j) / pcorrDenomSq P i j := by
+  unfold normInvSq pcorrDenomSq pcorrNumer qabs rabs
+  simp only [neg_mul_neg]
+
+open Pyunicorn.Generated.StructC10 in
+/-- the matrix handed to the inverse is the correlation (or covariance — `normInv_scale_invariant`:
+same result) matrix of the anomalies, `numpy.linalg.inv` runs exactly under the guard
+`det(C) != 0.0`, `pinv` otherwise -/
+theorem pcorr_source_branches :
+    (pcorrMatrixFn = "corrcoef" ∨ pcorrMatrixFn = "cov") ∧ pcorrGuard = "np.linalg.det(C) != 0.0" ∧
+      pcorrThen = "np.linalg.inv(C)" ∧ pcorrElse = "np.linalg.pinv(C)" := by decide
+
+open Pyunicorn.Generated.StructC10 in
+/-- **source expression = partial correlation**: the expression of the working tree, evaluated on
+the exact inverse of the covariance matrix of the series, is the partial correlation of `i` and `j`
+given all other series (signed squares), for every data set on which the elimination succeeds —
+by `partial_correlation_fails_iff_collinear` every data set without exactly collinear series -/
+theorem source_expression_is_partial_correlation (n N : Nat) (r : Nat → Nat → Rat)
+    (P : Nat → Nat → Rat) (h : gjInverse (fun a b => covTo n (r a) (r b)) N = some P) (i j : Nat)
+    (hi : i < N) (hj : j < N) (hij : i ≠ j) :
+    (if pcorrDenomSq P i j = 0 then 0
+      else sgn (pcorrNumer P i j) * (pcorrNumer P i j * pcorrNumer P i j) / pcorrDenomSq P i j) =
+      parCorrSqG (fun a b => covTo n (r a) (r b)) (othersOf N i j) i j := by
+  rw [← normInv_is_source_expression]
+  exact (model_partial_correlation n N r P h i j hi hj hij).1
+
+/-! ## Round 5: reordering the series permutes the partial-correlation matrix -/
+
+/-- the inverse of a relabelled matrix is the relabelled inverse, and the elimination succeeds on
+it (whatever pivots it meets on the way): uniqueness of the inverse -/
+theorem gjInverse_relabel (C : Nat → Nat → Rat) (N : Nat) (π : Nat → Nat) (hπ : PermOn π N)
+    (P : Nat → Nat → Rat) (h : gjInverse C N = some P) :
+    ∃ P', gjInverse (fun a b => C (π a) (π b)) N = some P' ∧
+      ∀ i j, i < N → j < N → P' i j = P (π i) (π j) := by
+  have hQ : ∀ i j, i < N → j < N →
+      sumTo N (fun l => (fun a b => P (π a) (π b)) i l * (fun a b => C (π a) (π b)) l j) =
+        if i = j then 1 else 0 := by
+    intro i j hi hj
+    show sumTo N (fun l => P (π i) (π l) * C (π l) (π j)) = _
+    rw [sumTo_perm N (fun m => P (π i) m * C m (π j)) π hπ,
+      gjInverse_correct C N P h (π i) (π j) (hπ.1 i hi) (hπ.1 j hj)]
+    by_cases e : i = j
+    · subst e; simp
+    · have : π i ≠ π j := fun x => e (hπ.2 i j hi hj x)
+      simp [e, this]
+  have hs : (gjInverse (fun a b => C (π a) (π b)) N).isSome :=
+    (gjInverse_succeeds_iff _ N).mpr ⟨fun a b => P (π a) (π b), hQ⟩
+  obtain ⟨P', hP'⟩ := Option.isSome_iff_exists.mp hs
+  exact ⟨P', hP', fun i j hi hj =>
+    (gjInverse_unique _ N P' (fun a b => P (π a) (π b)) hP' hQ i j hi hj).symm⟩
+
+example : PermOn (fun k => [2, 0, 1].getD k k) 3 := by
+  constructor
+  · intro s hs
+    have h1 : s = 0 ∨ s = 1 ∨ s = 2 := by omega
+    rcases h1 with rfl | rfl | rfl <;> decide
+  · intro s s' hs hs' e
+    have h1 : s = 0 ∨ s = 1 ∨ s = 2 := by omega
+    have h2 : s' = 0 ∨ s' = 1 ∨ s' = 2 := by omega
+    rcases h1 with rfl | rfl | rfl <;> rcases h2 with rfl | rfl | rfl <;>
+      first | rfl | (exfalso; revert e; decide)
+
+/-- **"permuted consistently when series are reordered", for the partial correlation**: for every
+reordering `π` of the `N` series, if the model has a value on the data it has one on the reordered
+data, and entry `(i, j)` there is entry `(π i, π j)` of the original matrix — diagonal included -/
+theorem partial_correlation_relabel (n N : Nat) (r : Nat → Nat → Rat) (π : Nat → Nat)
+    (hπ : PermOn π N) (P : Nat → Nat → Rat)
+    (h : gjInverse (fun a b => covTo n (r a) (r b)) N = some P) :
+    ∃ P', gjInverse (fun a b => covTo n (r (π a)) (r (π b))) N = some P' ∧
+      ∀ i j, i < N → j < N → normInvSq P' i j = normInvSq P (π i) (π j) := by
+  obtain ⟨P', hP', he⟩ := gjInverse_relabel (fun a b => covTo n (r a) (r b)) N π hπ P h
+  refine ⟨P', hP', fun i j hi hj => ?_⟩
+  unfold normInvSq
+  rw [he i i hi hi, he j j hj hj, he i j hi hj]
+
+/-! ## Round 5: affine images of the series and the partial correlation -/
+
+/-- **"affine-invariant wherever the statistic is", for the partial correlation**: replace every
+series `x_d` by `a_d · x_d + b_d` (`a_d ≠ 0`).  If the model has a value on the data it has one on
+the images, and every off-diagonal entry changes by the factor `sign(a_i a_j)` only (signed
+squares).  The elimination succeeds on the rescaled covariance matrix because `P_ul / (a_u a_l)`
+is a left inverse of it (`gjInverse_succeeds_iff`); the value is tied to the data through
+`model_partial_correlation` and `parCorr_scale_invariant`. -/
+theorem partial_correlation_affine_invariant (n N : Nat) (hn : 0 < n) (r : Nat → Nat → Rat)
+    (a b : Nat → Rat) (ha : ∀ d, a d ≠ 0) (P : Nat → Nat → Rat)
+    (h : gjInverse (fun u v => covTo n (r u) (r v)) N = some P) :
+    ∃ P', gjInverse (fun u v => covTo n (fun k => a u * r u k + b u)
+        (fun k => a v * r v k + b v)) N = some P' ∧
+      ∀ i j, i < N → j < N → i ≠ j → normInvSq P' i j = sgn (a i * a j) * normInvSq P i j := by
+  have hG : (fun u v => covTo n (fun k => a u * r u k + b u) (fun k => a v * r v k + b v)) =
+      fun u v => a u * a v * covTo n (r u) (r v) := by
+    funext u v; exact covTo_affine n hn (r u) (r v) (a u) (b u) (a v) (b v)
+  have hQ : ∀ i j, i < N → j < N →
+      sumTo N (fun l => (fun u v => P u v / (a u * a v)) i l *
+        (fun u v => a u * a v * covTo n (r u) (r v)) l j) = if i = j then 1 else 0 := by
+    intro i j hi hj
+    have hai := ha i
+    rw [sumTo_congr (g := fun l => (a j / a i) * (P i l * covTo n (r l) (r j))) (fun l _ => by
+      have hal := ha l
+      show P i l / (a i * a l) * (a l * a j * covTo n (r l) (r j)) = _
+      field_simp), sumTo_mul_left, gjInverse_correct _ N P h i j hi hj]
+    by_cases e : i = j
+    · subst e; simp [div_self hai]
+    · simp [e]
+  have hs : (gjInverse (fun u v => covTo n (fun k => a u * r u k + b u)
+      (fun k => a v * r v k + b v)) N).isSome := by
+    rw [hG]; exact (gjInverse_succeeds_iff _ N).mpr ⟨_, hQ⟩
+  obtain ⟨P', hP'⟩ := Option.isSome_iff_exists.mp hs
+  refine ⟨P', hP', fun i j hi hj hij => ?_⟩
+  rw [(model_partial_correlation n N (fun u k => a u * r u k + b u) P' hP' i j hi hj hij).1,
+    (model_partial_correlation n N r P h i j hi hj hij).1]
+  have := parCorr_scale_invariant (fun u v => covTo n (r u) (r v)) a ha (othersOf N i j) i j
+  rw [← this]
+  congr 1
 
 end Pyunicorn.Coupling
